@@ -9,7 +9,8 @@ LEVEL = "exploration"
 ASSUMPTIONS = ["'invalid access' is observed by AddressSanitizer and -fsanitize=bounds (array and local bounds) on the executions that are "
                "run; uninitialised reads are not in the statement (no MSan)",
                "output buffers are allocated with exactly the requested size, so a read that returns or writes more than asked is an ASan error",
-               "a sample of the executions is additionally validated against DecoderApi.tla (n <= k, buffer bounds, faithful length/CRC)"]
+               "a sample of the executions is additionally validated against DecoderApi.tla (n <= k, buffer bounds, faithful length/CRC)",
+               "every hostile stream of at most 200 bytes is additionally decoded by the TLA+ format definitions (Trace_Codec): the C decoder's chunks must equal the definition's on invalid input too"]
 
 
 def valid_streams(rng, meth, n):
@@ -50,12 +51,46 @@ def valid_streams(rng, meth, n):
     return out
 
 
+
+OFFSET_BITS = {"-lh4-": 4, "-lh5-": 4, "-lh6-": 5, "-lh7-": 5, "-lhx-": 5, "-lk7-": 6}
+
+
+def _bits(fields):
+    v = n = 0
+    for val, w in fields:
+        v = (v << w) | (val & ((1 << w) - 1)); n += w
+    pad = (-n) % 8
+    return ((v << pad).to_bytes((n + pad) // 8, "big"))
+
+
+def table_extremes(rng, meth, tier):
+    """hand-assembled block headers of the -lh4-..-lk7- family whose table fields take every value their
+    width allows, also the ones no encoder writes: 'single code' tables (count 0) naming symbols beyond
+    the alphabet, counts beyond the alphabet, offset codes beyond the window"""
+    ob = OFFSET_BITS[meth]
+    out = []
+    codes = range(512) if tier == "thorough" else sorted(set([0, 255, 256, 257, 509, 510, 511] + [rng.randrange(512) for _ in range(6)]))
+    offs = range(1 << ob) if tier == "thorough" else sorted(set([0, 1, (1 << ob) - 1, (1 << ob) - 2] + [rng.randrange(1 << ob) for _ in range(3)]))
+    for c in codes:
+        for o in offs:
+            # block of 400 commands; temp table: single code 0; code table: single code c; offset table: single code o
+            out.append(("single-%d-%d" % (c, o), _bits([(400, 16), (0, 5), (0, 5), (0, 9), (c, 9), (0, ob), (o, ob)]) + bytes(rng.randrange(256) for _ in range(12))))
+    for t in (range(32) if tier == "thorough" else [0, 18, 19, 20, 31]):
+        # temp table: single code t (values above 18 are no code length), then a code table of 511 entries read through it
+        out.append(("temp-%d" % t, _bits([(3, 16), (0, 5), (t, 5), (511, 9)]) + bytes(rng.randrange(256) for _ in range(20))))
+    for n in (19, 20, 31):
+        # temp table with more entries than the alphabet has
+        out.append(("tempn-%d" % n, _bits([(3, 16), (n, 5)]) + bytes(rng.randrange(256) for _ in range(40))))
+    return out
+
 def streams_for(rng, meth, tier):
     base = valid_streams(rng, meth, 24 if tier == "quick" else 200)
     pay = corpus.sample_payloads().get(meth)
     if pay:
         base.append(("corpus", pay[1][:4000]))
     out = list(base)
+    if meth in OFFSET_BITS:
+        out += table_extremes(rng, meth, tier)
     for cls, b in base:
         if not b:
             continue
@@ -87,11 +122,14 @@ def run(tier, seed, ev):
     drv = V.build_driver("decoder_drv", "san")
     jobs = []
     sample = []
+    hostile = []
     iid = 0
     for meth in corpus.METHODS:
         for cls, data in streams_for(rng, meth, tier):
             path = os.path.join(sc, "s%d.bin" % len(jobs))
             open(path, "wb").write(data)
+            if len(data) <= 200 and not cls.startswith("valid") and cls != "corpus" and (tier == "quick" or rng.random() < 0.2):
+                hostile.append("real %d 1 %d %s %s %s" % (len(hostile) + 1, 500, meth, path, rng.choice(["R100,R1000,L,C", "R1,R7,R0,R600,L,C"])))
             for dl in rng.sample([0, 1, 100, 5000, 70000, 0xFFFFFFFF], 3):
                 iid += 1
                 big = dl if dl < 100000 else 20000
@@ -138,6 +176,31 @@ def run(tier, seed, ev):
         v2, good = TR.validate_all("Trace_DecoderApi", "Trace_DecoderApi", fixed, ev, "C09", xmx="3g")
         viols += v2
         ev.set("validated_against_DecoderApi", good)
+    # every short hostile stream also through the format definitions (Codec_*): on invalid input the C decoders
+    # must still do exactly what the definitions say (which never index outside ring, tables or buffer)
+    if hostile:
+        res3 = []
+        nsh = V.NCPU
+        for k in range(nsh):
+            sub = hostile[k::nsh]
+            if not sub:
+                continue
+            jf = os.path.join(sc, "h_jobs_%d.txt" % k)
+            open(jf, "w").write("\n".join(" ".join([j.split()[0], str(i + 1)] + j.split()[2:]) for i, j in enumerate(sub)) + "\n")
+            tr = os.path.join(sc, "h_trace_%d.ndjson" % k)
+            with open(tr, "w") as out:
+                p = subprocess.run([drv, jf, "data"], stdout=out, stderr=subprocess.PIPE, env=V.run_env())
+            res3.append((jf, tr, len(sub), p))
+        v3, good3 = TR.validate_all("Trace_Codec", "Trace_Codec", res3, ev, "C09", xmx="6g", timeout=3000)
+        for v in v3:
+            jf = os.path.join(v["replay"], "jobs.txt")
+            if os.path.exists(jf):
+                for ln in open(jf):
+                    q = ln.split()
+                    if len(q) > 5 and os.path.exists(q[5]):
+                        shutil.copy(q[5], v["replay"])
+        viols += v3
+        ev.set("hostile_streams_validated_against_Codec_definitions", good3)
     ev.sample(jobs[0])
     ev.sample(jobs[len(jobs) // 2])
     ev.set("rule", "one execution per (method, stream, declared length, read schedule); distinct = (method, stream class: valid by table strategy / "
